@@ -129,8 +129,8 @@ Proof.
   induction fuel as [|fuel IH]; intros c sock sfds led o.
   - simpl. split; [apply acc_step_refl|]. exists 0%nat. simpl. rewrite app_nil_r; auto.
   - cbn [pump].
-    pose proof (do_reading_hist cf now (fuel_for sock) c sock sfds led [] 0) as R.
-    destruct (do_reading (fuel_for sock) cf now c sock sfds led [] 0) as [[[c1 q] led1] rs].
+    pose proof (do_reading_hist cf now (S fuel) c sock sfds led [] 0) as R.
+    destruct (do_reading (S fuel) cf now c sock sfds led [] 0) as [[[c1 q] led1] rs].
     destruct R as (A1 & (k & R1)).
     pose proof (dispatch_all_recv cf cs (c_id c) (sender_gone rs) q led1) as D.
     destruct (dispatch_all cf cs (c_id c) (sender_gone rs) q led1) as [o1 led2]. simpl in D.
